@@ -43,6 +43,9 @@ def _setup(rng, Lmax=6, maxdim=1024):
 
 def scalars_case(ctx, idx, rng):
     L, d, qd, H, psi, chi, src, herm = _setup(rng)
+    if idx % 5 == 4:
+        chi = psi                  # the SAME object as bra and ket (vdot(psi, psi), operator_inner_product(psi, H, psi))
+        src = src + '+bra-is-ket'
     vp, vc, mH = refs.dense_state(psi.A), refs.dense_state(chi.A), refs.dense_operator(H.A)
     ctx.case(('scalars', f'L{L}', f'd{d}', src, 'real-ket' if not np.iscomplexobj(psi.A[0]) else 'complex-ket'),
              sample={'qd': qd, 'qD_psi': psi.qD, 'qD_chi': chi.qD, 'qD_H': H.qD})
